@@ -14,7 +14,7 @@ use std::time::Duration;
 use crate::exop_impl::StartTLS;
 use crate::ldap::Ldap;
 use crate::protocol::{ItemSender, LdapCodec, LdapOp, MaybeControls, MiscSender, ResultSender};
-use crate::result::{LdapError, Result};
+use crate::result::{LdapError, LdapResultExt, Result};
 use crate::search::SearchItem;
 use crate::RequestId;
 
@@ -892,7 +892,16 @@ impl LdapConnAsync {
                         let done = protoop.id == 5;
                         let (item, mut remove) = match protoop.id {
                             4 | 25 => (SearchItem::Entry(protoop), false),
-                            5 => (SearchItem::Done(Tag::StructureTag(protoop).into()), true),
+                            5 => match LdapResultExt::try_from_tag(Tag::StructureTag(protoop)) {
+                                Some(res) => (SearchItem::Done(res.0), true),
+                                None => {
+                                    warn!("malformed search result, op={}", id);
+                                    return Err(LdapError::from(io::Error::new(
+                                        io::ErrorKind::Other,
+                                        "decoding error",
+                                    )));
+                                },
+                            },
                             19 => (SearchItem::Referral(protoop), false),
                             _ => {
                                 // Nothing but entries, references, intermediate responses and
